@@ -920,6 +920,8 @@ def _verify_table(real, model, case, out):
 
 def _run_chain(case, out):
     out.labels.append('family=chain')
+    if any(spec.get('hl2d') for spec in case['tables']):
+        out.labels.append('chain:tables-built-like-by-labels')
     pool = []
     for spec in case['tables']:
         real, model = _chain_initial(case, spec)
